@@ -435,6 +435,10 @@ func c09Instances(add func(*Instance), thorough bool) {
 	// quick: ParHeapOr on one shared chunk (it has no FastOr fallback)
 	add(&Instance{Func: "VerifC11Aggregate", Params: P("L", 7, "eff", 1, "inv", 1, "g", 7, "lst", 12, "w", 1, "xb", 56, "xm", 15,
 		"ak", 1, "akeys", 4, "ac0", 21, "bk", 1, "bkeys", 4, "bc0", 224, "ck", 1, "ckeys", 4, "cc0", 21)})
+	// two bitmap chunks whose intersection holds 4094..4098 values (the free bits decide the side of 4096)
+	for _, op := range []int{0, 4} {
+		add(&Instance{Func: "VerifC01ContainerBinop", Params: P("op", op, "ka", kB, "sa", 2, "kb", kB, "sb", 2, "L", 7, "inv", 1, "eff", 1)})
+	}
 	// whole-bitmap transforms: static Flip inside / across short runs, AddOffset64 splitting run, array and bitmap chunks
 	flipBase := P("L", 7, "eff", 1, "inv", 1, "xb", 0, "xm", -1)
 	add(&Instance{Func: "VerifC16Flip", Params: with(flipBase, "ak", 2, "akeys", 4, "ac0", 224, "ac1", 21, "sb", 56, "sm", 15, "eb", 60, "em", 15, "len", -1)})
